@@ -769,3 +769,55 @@ func retOperand(ret *ssa.Return, i int) ssa.Value {
 	}
 	return v
 }
+
+// resolveFreeVar: v (in closure fn) is a free variable, or a load of a captured
+// variable cell; returns the value bound in the enclosing function (looking
+// through the cell when it is stored exactly once), or nil.
+func resolveFreeVar(fn *ssa.Function, v ssa.Value) ssa.Value {
+	var fv *ssa.FreeVar
+	switch x := v.(type) {
+	case *ssa.FreeVar:
+		fv = x
+	case *ssa.UnOp:
+		if x.Op == token.MUL {
+			fv, _ = x.X.(*ssa.FreeVar)
+		}
+	}
+	if fv == nil || fn.Parent() == nil {
+		return nil
+	}
+	idx := -1
+	for i, f := range fn.FreeVars {
+		if f == fv {
+			idx = i
+		}
+	}
+	if idx < 0 {
+		return nil
+	}
+	for _, b := range fn.Parent().Blocks {
+		for _, in := range b.Instrs {
+			mc, ok := in.(*ssa.MakeClosure)
+			if !ok || mc.Fn != ssa.Value(fn) || idx >= len(mc.Bindings) {
+				continue
+			}
+			bnd := mc.Bindings[idx]
+			if al, ok := bnd.(*ssa.Alloc); ok {
+				var only ssa.Value
+				n := 0
+				for _, r := range *al.Referrers() {
+					if st, ok := r.(*ssa.Store); ok && st.Addr == ssa.Value(al) {
+						only = st.Val
+						n++
+					}
+				}
+				if n == 1 {
+					return strip(only)
+				}
+				return al
+			}
+			return strip(bnd)
+		}
+	}
+	return nil
+}
